@@ -202,8 +202,6 @@ Definition phase_inv (s : rst) : Prop :=
   | PIdle => r_flipped s = false /\ r_rip s = false
   | PStarting => r_flipped s = false /\ r_wk s = None /\ r_acked s = [] /\ r_rip s = false /\
                  r_todo s = r_new s /\ r_loc s = [] /\ r_drn s = [] /\ r_buf s = [] /\ r_counted s = false
-  | PStartOrphan => r_wk s = None
-  | PWedged => r_wk s = None
   | PFilling => r_flipped s = false /\ r_rip s = true /\ AltInv s
   | PClean0 => r_flipped s = false /\ r_wk s = None /\ AltInv s /\ r_counted s = true
   | PClean1 => r_flipped s = false /\ r_wk s = None /\ AltInv s /\ r_counted s = true /\
@@ -345,28 +343,32 @@ Qed.
 
 (* ---- writes of the reset goroutine into the alternate slot ---------------- *)
 Lemma checked_write st c b nw :
-  wfs st -> st_get KSize st = None -> NoDup (map mid c) -> all_kwf c ->
-  put_scan seen_dedups pb st NoFault c [] 0 = Some (b, nw) ->
+  wfs st -> st_get KSize st = None -> all_kwf c ->
+  put_scan pb st NoFault c [] 0 = Some (b, nw) ->
   wfs (apply_batch st b) /\ st_get KSize (apply_batch st b) = None /\
   (forall x, In x (keys_of (apply_batch st b)) <-> In x (keys_of st) \/ In x c) /\
   length (apply_batch st b) = length st + length nw.
 Proof.
-  intros W NS ND KW H.
-  rewrite (put_scan_dd pb) in H by (auto; intros ? ? []).
+  intros W NS KW H.
   apply (put_scan_some pb) in H. destruct H as [E1 E2].
-  assert (NDn : NoDup (map mid nw)) by (rewrite E1; apply NoDup_map_filter; exact ND).
-  assert (KWn : forall k, In k nw -> kwf k) by (intros k Hk; apply KW; rewrite E1 in Hk; apply filter_In in Hk; tauto).
+  assert (NDn : NoDup (map mid nw)) by (rewrite E1; apply NoDup_map_filter; apply dedup_mid_nodup).
+  assert (IN : forall k, In k nw -> In k c).
+  { intros k Hk. rewrite E1 in Hk. apply filter_In in Hk. destruct Hk as [Hk _]. apply dedup_mid_incl in Hk. tauto. }
+  assert (KWn : forall k, In k nw -> kwf k) by (intros k Hk; apply KW; apply IN; exact Hk).
   assert (HF : forall k, In k nw -> st_has (dkey pb k) st = false).
   { intros k Hk. rewrite E1 in Hk. apply filter_In in Hk. apply negb_true_iff. tauto. }
   rewrite E2, (apply_puts_fresh bits_of pb) by assumption.
   split; [apply wfs_puts; assumption|]. split; [apply st_get_size_rows; exact NS|]. split.
   - intro x. rewrite keys_of_app, (keys_of_rows pb), in_app_iff. split.
-    + intros [H|H]; [auto|]. right. rewrite E1 in H. apply filter_In in H. tauto.
+    + intros [H|H]; [auto|]. right. apply IN. exact H.
     + intros [H|H]; [auto|]. destruct (st_has (dkey pb x) st) eqn:E.
       * left. rewrite (st_has_dkey bits_of pb st x W (KW x H)) in E. apply has_mid_true in E.
         destruct E as [k' [Hk' E]]. assert (Kk' : kwf k') by (apply (keys_of_wf bits_of pb st); assumption).
         assert (k' = x) by (apply (kwf_same_id bits_of); auto). subst. exact Hk'.
-      * right. rewrite E1. apply filter_In. split; [exact H|]. rewrite E. reflexivity.
+      * right. destruct (dedup_mid_has c [] x H (fun X => X)) as [k' [Hk' Q]].
+        assert (k' = x).
+        { apply (kwf_same_id bits_of); auto. apply KW. apply dedup_mid_incl in Hk'. tauto. }
+        subst k'. rewrite E1. apply filter_In. split; [exact Hk'|]. rewrite E. reflexivity.
   - rewrite app_length, map_length. reflexivity.
 Qed.
 
@@ -541,14 +543,6 @@ Proof.
   unfold phase_inv. proj. tauto.
 Qed.
 
-Lemma step_EStartCancel s s' : RInv s -> r_closed s = false -> rstep pb s EStartCancel = Some s' -> RInv s'.
-Proof.
-  intros I NC H. step_open H NC. destruct (r_ph s) eqn:P; try discriminate. inversion H; subst s'; clear H.
-  pose proof (i_phase s I) as PH. unfold phase_inv in PH. rewrite P in PH.
-  apply (same_core_inv s); [sc NC|left; reflexivity|right; left; tauto|exact I|].
-  unfold phase_inv. proj. tauto.
-Qed.
-
 Lemma step_EAbort s s' : RInv s -> r_closed s = false -> rstep pb s EAbort = Some s' -> RInv s'.
 Proof.
   intros I NC H. step_open H NC. destruct (r_ph s) eqn:P; try discriminate.
@@ -608,12 +602,12 @@ Proof.
 Qed.
 
 Lemma step_EDel_aux s c : RInv s ->
-  (r_ph s = PStarting \/ r_ph s = PStartOrphan \/ r_ph s = PTearing) ->
+  (r_ph s = PStarting \/ r_ph s = PTearing) ->
   RInv (upd_j s (gappend (r_j s) (negb (r_active s)) (del_ops c)) (r_synced s)).
 Proof.
   intros I HP. pose proof (i_phase s I) as PH. unfold phase_inv in PH.
   apply (alt_entry_inv s _ (del_ops c)); try reflexivity; [exact I|].
-  unfold phase_inv. proj. destruct HP as [E | [E | E]]; rewrite E in *; try exact PH.
+  unfold phase_inv. proj. destruct HP as [E | E]; rewrite E in *; try exact PH.
   destruct PH as [W PH]. split; [exact W|]. intros F. unfold window. proj.
   apply (window_gappend (fun g => act g = negb (r_a0 s))); [apply (PH F)|].
   rewrite act_gapply_slot. fold (rcur s). rewrite (i_act s I), (i_a0 s I), F. reflexivity.
@@ -630,7 +624,7 @@ Proof.
   intros I NC H. step_open H NC.
   pose proof (i_phase s I) as PH. unfold phase_inv in PH.
   destruct (r_ph s) eqn:P; try discriminate.
-  - destruct (alternate s) eqn:AL; [|discriminate]. simpl in H. inversion H; subst s'; clear H.
+  destruct (alternate s) eqn:AL; [|discriminate]. simpl in H. inversion H; subst s'; clear H.
     destruct PH as [F [W [K [R [T [L [D [B C]]]]]]]].
     apply (same_core_inv s); [sc NC|right; reflexivity|right; left; exact W|exact I|].
     unfold phase_inv. proj. split; [exact F|]. split; [reflexivity|].
@@ -643,15 +637,12 @@ Proof.
     + rewrite app_nil_r. intros x Hx. exact Hx.
     + intros x [].
     + rewrite C. discriminate.
-  - inversion H; subst s'; clear H.
-    apply (same_core_inv s); [sc NC|right; reflexivity|right; left; exact PH|exact I|].
-    unfold phase_inv. proj. exact PH.
 Qed.
 
-Lemma step_EAltWrite_aux s s' fromb c : RInv s -> r_closed s = false -> NoDup (map mid c) ->
+Lemma step_EAltWrite_aux s s' fromb c : RInv s -> r_closed s = false ->
   (r_ph s = PFilling \/ r_ph s = PClean0) -> alt_write pb s fromb c = Some s' -> RInv s'.
 Proof.
-  intros I NC ND HP HS. pose proof (i_phase s I) as PH. unfold phase_inv in PH. unfold alt_write in HS. destruct c as [|c0 c']; [discriminate|]. set (c := c0 :: c') in *.
+  intros I NC HP HS. pose proof (i_phase s I) as PH. unfold phase_inv in PH. unfold alt_write in HS. destruct c as [|c0 c']; [discriminate|]. set (c := c0 :: c') in *.
     destruct (alt_sel s fromb c) as [[[loc drn] buf]|] eqn:SEL; [|discriminate].
     destruct (alt_sel_spec s fromb c loc drn buf SEL) as [L1 [L2 [D1 [D2 CI]]]].
     assert (AI : AltInv s) by (destruct HP as [E|E]; rewrite E in PH; tauto).
@@ -662,9 +653,9 @@ Proof.
       - left. apply (a_loc s AI). apply in_app_iff. auto.
       - right. apply (a_drn s AI). exact Hk. }
     destruct (r_counted s) eqn:CT.
-    - destruct (put_scan seen_dedups pb (alternate s) NoFault c [] 0) as [[b nw]|] eqn:PS; [|discriminate].
+    - destruct (put_scan pb (alternate s) NoFault c [] 0) as [[b nw]|] eqn:PS; [|discriminate].
       inversion HS; subst s'; clear HS.
-      destruct (checked_write (alternate s) c b nw (a_wfs s AI) (a_nosize s AI) ND KC PS) as [W1 [W2 [W3 W4]]].
+      destruct (checked_write (alternate s) c b nw (a_wfs s AI) (a_nosize s AI) KC PS) as [W1 [W2 [W3 W4]]].
       assert (AI' : AltInv {| r_j := gappend (r_j s) (negb (r_active s)) b; r_synced := r_synced s;
                               r_active := r_active s; r_size := r_size s;
                               r_alt := r_alt s + Z.of_nat (length nw);
@@ -694,10 +685,10 @@ Proof.
       + destruct PH as [H1 [H2 [_ H3]]]. rewrite H3 in CT. discriminate.
 Qed.
 
-Lemma step_EAltWrite s s' fromb c : RInv s -> r_closed s = false -> NoDup (map mid c) ->
+Lemma step_EAltWrite s s' fromb c : RInv s -> r_closed s = false ->
   rstep pb s (EAltWrite fromb c) = Some s' -> RInv s'.
 Proof.
-  intros I NC ND H. step_open H NC.
+  intros I NC H. step_open H NC.
   destruct (r_ph s) eqn:P; try discriminate; apply (step_EAltWrite_aux s s' fromb c); auto.
 Qed.
 
@@ -769,11 +760,11 @@ Lemma step_EPutCommit s s' : RInv s -> r_closed s = false -> rstep pb s EPutComm
 Proof.
   intros I NC H. step_open H NC.
   destruct (r_wk s) as [[ks [nw0|]]|] eqn:W; try discriminate.
-  destruct (put_scan seen_dedups pb (primary s) NoFault ks [] 0) as [[b nw]|] eqn:PS; [|discriminate].
+  destruct (put_scan pb (primary s) NoFault ks [] 0) as [[b nw]|] eqn:PS; [|discriminate].
   inversion H; subst s'; clear H.
   pose proof (i_wk s I) as WK. unfold wk_inv in WK. rewrite W in WK. destruct WK as [KO WF].
   assert (PW := inv_pwfs s I). assert (NS := i_nosize s I NC).
-  destruct (checked_write (primary s) ks b nw PW NS (proj1 KO) (proj2 KO) PS) as [W1 [W2 [W3 W4]]].
+  destruct (checked_write (primary s) ks b nw PW NS KO PS) as [W1 [W2 [W3 W4]]].
   set (s' := {| r_j := gappend (r_j s) (r_active s) b; r_synced := r_synced s; r_active := r_active s;
                 r_size := r_size s + Z.of_nat (length nw); r_alt := r_alt s;
                 r_rip := r_rip s; r_buf := r_buf s; r_wk := Some (ks, Some nw); r_ph := r_ph s;
@@ -963,6 +954,14 @@ Proof.
   - unfold phase_inv. proj. split; [reflexivity|exact W].
 Qed.
 
+Lemma step_EFlipFail s s' : RInv s -> r_closed s = false -> rstep pb s EFlipFail = Some s' -> RInv s'.
+Proof.
+  intros I NC H. step_open H NC. destruct (r_ph s) eqn:P; try discriminate. inversion H; subst s'; clear H.
+  pose proof (i_phase s I) as PH. unfold phase_inv in PH. rewrite P in PH.
+  apply (same_core_inv s); [sc NC|left; reflexivity|right; left; tauto|exact I|].
+  unfold phase_inv. proj. split; [tauto|]. destruct PH as [F _]. rewrite F. discriminate.
+Qed.
+
 Lemma step_EFinish s s' : RInv s -> r_closed s = false -> rstep pb s EFinish = Some s' -> RInv s'.
 Proof.
   intros I NC H. step_open H NC.
@@ -998,8 +997,6 @@ Definition ev_ok (e : revent) : Prop :=
   match e with
   | EPutBegin ks => keys_ok ks
   | EStart new => all_kwf new
-  | EAltWrite _ c => NoDup (map mid c)
-  | EFlipFail => False
   | _ => True
   end.
 
@@ -1018,7 +1015,6 @@ Proof.
     + eapply step_EDel; eauto.
     + eapply step_EStartDone; eauto.
     + eapply step_EStartFail; eauto.
-    + eapply step_EStartCancel; eauto.
     + eapply step_EKey; eauto.
     + eapply step_EAltWrite; eauto.
     + eapply step_EAltSync; eauto.
@@ -1026,7 +1022,7 @@ Proof.
     + eapply step_ECleanup; eauto.
     + eapply step_ECleanSync; eauto.
     + eapply step_EFlip; eauto.
-    + destruct OK.
+    + eapply step_EFlipFail; eauto.
     + eapply step_EMarkSync; eauto.
     + eapply step_EAbort; eauto.
     + eapply step_EAbortClean; eauto.
@@ -1129,5 +1125,92 @@ Proof.
   - apply (keys_of_nodup bits_of pb). exact W.
   - destruct (inv_cur_view s I) as [_ [_ [_ D]]]. rewrite (inv_vslot s I) in D. unfold gh in D. proj. unfold holds.
     destruct D as [[_ D]|[D0 [_ D]]]; [left|right]; auto.
+Qed.
+
+(* ---- the worker can always get back to the idle state -------------------- *)
+Definition finish_reset (p : phase) : list revent :=
+  match p with
+  | PIdle => []
+  | PStarting => [EStartFail]
+  | PFilling => [EAbort; EFinish]
+  | PClean0 => [EAbortClean; EFinish]
+  | PClean1 => [EFlipFail; EFinish]
+  | PClean2 => [EMarkSync; EFinish]
+  | PTearing => [EFinish]
+  end.
+
+Lemma finish_reset_runs s : r_closed s = false -> r_wk s = None ->
+  exists s', rrun pb s (finish_reset (r_ph s)) = Some s' /\ r_ph s' = PIdle /\ r_wk s' = None /\ r_closed s' = false.
+Proof.
+  intros NC W. destruct (r_ph s) eqn:P; simpl; unfold rstep; rewrite ?NC, ?P, ?W; simpl;
+    rewrite ?NC, ?P, ?W; simpl; eexists; (split; [reflexivity|]); simpl; auto.
+Qed.
+
+Theorem never_wedged s : RInv s -> r_closed s = false ->
+  exists evs s', rrun pb s evs = Some s' /\ r_ph s' = PIdle /\ r_wk s' = None /\ r_closed s' = false.
+Proof.
+  intros I NC. pose proof (i_wk s I) as WK. unfold wk_inv in WK.
+  destruct (r_wk s) as [[ks [nw|]]|] eqn:W.
+  - (* a Put waiting for its Sync *)
+    destruct (rstep pb s EPutSync) as [s1|] eqn:E1.
+    + assert (C1 : r_closed s1 = false /\ r_wk s1 = None).
+      { unfold rstep in E1. rewrite NC, W in E1. inversion E1. split; reflexivity. }
+      destruct (finish_reset_runs s1 (proj1 C1) (proj2 C1)) as [s' [R H]].
+      exists (EPutSync :: finish_reset (r_ph s1)), s'. simpl. rewrite E1. auto.
+    + unfold rstep in E1. rewrite NC, W in E1. discriminate.
+  - destruct (put_scan_nofault pb (primary s) NoFault Logic.I ks [] 0) as [b [nw PS]].
+    destruct (rstep pb s EPutCommit) as [s1|] eqn:E1; [|unfold rstep in E1; rewrite NC, W, PS in E1; discriminate].
+    assert (C1 : r_closed s1 = false /\ r_wk s1 = Some (ks, Some nw)).
+    { unfold rstep in E1. rewrite NC, W, PS in E1. inversion E1. split; reflexivity. }
+    destruct (rstep pb s1 EPutSync) as [s2|] eqn:E2;
+      [|unfold rstep in E2; rewrite (proj1 C1), (proj2 C1) in E2; discriminate].
+    assert (C2 : r_closed s2 = false /\ r_wk s2 = None).
+    { unfold rstep in E2. rewrite (proj1 C1), (proj2 C1) in E2. inversion E2. split; reflexivity. }
+    destruct (finish_reset_runs s2 (proj1 C2) (proj2 C2)) as [s' [R H]].
+    exists (EPutCommit :: EPutSync :: finish_reset (r_ph s2)), s'. simpl. rewrite E1, E2. auto.
+  - destruct (finish_reset_runs s NC W) as [s' [R H]]. exists (finish_reset (r_ph s)), s'. auto.
+Qed.
+
+Theorem reachable_never_wedged evs s : Forall ev_ok evs -> rrun pb (ropen []) evs = Some s -> r_closed s = false ->
+  exists evs' s', rrun pb s evs' = Some s' /\ r_ph s' = PIdle /\ r_wk s' = None /\ r_closed s' = false.
+Proof.
+  intros F H NC. apply never_wedged; [|exact NC]. eapply rrun_inv; [apply ropen_nil_inv|exact F|exact H].
+Qed.
+
+(* ---- a failing datastore call of the reset ------------------------------- *)
+Definition fault_event (e : revent) : Prop :=
+  e = EStartFail \/ e = EAbort \/ e = EAbortClean \/ e = EFlipFail.
+
+Lemma fault_event_not_flipped s s' e : RInv s -> fault_event e -> rstep pb s e = Some s' ->
+  r_flipped s' = false /\ r_old s' = r_old s /\ r_acked s' = r_acked s.
+Proof.
+  intros I FE H. pose proof (i_phase s I) as PH. unfold phase_inv in PH.
+  unfold rstep in H. destruct (r_closed s) eqn:NC.
+  - destruct FE as [-> | [-> | [-> | ->]]]; discriminate.
+  - destruct FE as [-> | [-> | [-> | ->]]]; destruct (r_ph s) eqn:P; try discriminate.
+    + inversion H; subst s'. simpl. tauto.
+    + destruct (is_none (r_wk s)); [|discriminate]. inversion H; subst s'. simpl. tauto.
+    + inversion H; subst s'. simpl. tauto.
+    + inversion H; subst s'. simpl. tauto.
+Qed.
+
+(* whatever datastore call of the reset fails (in opStart, in phases A-C, in the final
+   drain / altDs.Sync, or the marker write itself): every crash point afterwards reopens
+   to the complete old set with the acknowledged puts *)
+Theorem error_injection evs s s' e n : Forall ev_ok evs -> rrun pb (ropen []) evs = Some s ->
+  fault_event e -> rstep pb s e = Some s' ->
+  r_synced s' <= n <= length (r_j s') ->
+  let j' := firstn n (r_j s') in
+  NoDup (map mid (reopen_keys j')) /\ reopen_size j' = Z.of_nat (length (reopen_keys j')) /\
+  holds (r_old s) s' (reopen_keys j').
+Proof.
+  intros F H FE ST Hn j'.
+  assert (I : RInv s) by (eapply rrun_inv; [apply ropen_nil_inv|exact F|exact H]).
+  assert (I' : RInv s').
+  { eapply rstep_inv; [exact I| |exact ST]. destruct FE as [-> | [-> | [-> | ->]]]; exact Logic.I. }
+  destruct (fault_event_not_flipped s s' e I FE ST) as [NF [EO _]].
+  destruct (crash_reopen s' n I' Hn) as [H1 [H2 H3]]. fold j' in H1, H2, H3.
+  split; [exact H1|]. split; [exact H2|]. rewrite <- EO.
+  destruct H3 as [H3|[H3 _]]; [exact H3|congruence].
 Qed.
 End R.
